@@ -914,7 +914,7 @@ pub fn main(args: &Args) -> Report {
         "random graphs (1-6 nodes, 0-3 labels, typed properties with missing values, up to 10 relationships over 3 types, self loops in a third; runs / compacted / compacted+reopened) x grammar-generated well-typed read queries (1-3 clauses of MATCH with 1-3 node chains, labels, inline properties, type alternation, three directions, variable length, comma patterns, variable reuse; OPTIONAL MATCH; UNWIND; WITH with projection/aggregation/WHERE; RETURN with expressions, aggregates count/sum/avg/min/max/collect [DISTINCT], DISTINCT, ORDER BY, SKIP, LIMIT; UNION [ALL]) evaluated by the engine and by an independent reference evaluator; rows compared as multisets (lists compared unordered), ORDER BY as key sequences, SKIP/LIMIT without a total order as a sub-multiset of the right size. Mismatches are re-run and shrunk. A cell is a grammar feature observed",
     );
     rep.assume("(src, type, dst) is unique in the generated graphs; queries the engine rejects or fails are counted as inconclusive; the loaded graph is verified against the model first");
-    let n = if args.thorough() { 30_000 } else { 1500 };
+    let n = if args.thorough() { 300_000 } else { 1500 };
     let deadline = Instant::now() + Duration::from_secs(args.budget_s(120, 1500));
     let seed = args.seed;
     let (mut out, _) = par_cases(n, threads(), Some(deadline), |k| {
